@@ -37,11 +37,15 @@ def gen_cases(tier, seed):
     # corpus: minimum searches that need several solver invocations (lower bound < optimum)
     cases.append({"kind": "corpus", "which": "mfd_readme", "rs": "corpus", "full": True})
     cases.append({"kind": "corpus", "which": "mfd_readme_mgs", "rs": "corpus", "full": True})
+    cases.append({"kind": "corpus", "which": "mfd_readme_guessed", "rs": "corpus", "full": True})
+    cases.append({"kind": "corpus", "which": "mfd_waist_guessed", "rs": "corpus", "full": True})
     cases.append({"kind": "corpus", "which": "mfdc_two", "rs": "corpus", "full": True})
     cases.append({"kind": "corpus", "which": "mgs_124_7", "rs": "corpus", "full": True})
     cases.append({"kind": "corpus", "which": "mpc_cons", "rs": "corpus", "full": True})
     cases.append({"kind": "restricted", "rs": "restricted"})
     cases.append({"kind": "lastrun", "rs": f"lastrun:{seed}"})
+    for i in range(12 if tier == "quick" else 150):
+        cases.append({"kind": "greedypre", "rs": f"C13gp:{seed}:{i}"})
     for cls in MIN_CLASSES + K_CLASSES:
         for i in range(n):
             cases.append({"kind": "model", "cls": cls, "rs": f"C13:{seed}:{cls}:{i}", "variant": i % 3})
@@ -60,12 +64,22 @@ def make_runner(case, rng):
     if kind == "corpus":
         README = [("s", "a", 6), ("s", "b", 7), ("a", "b", 2), ("a", "c", 4), ("b", "c", 9), ("c", "d", 6), ("c", "t", 7), ("d", "t", 6)]
         w = case["which"]
-        if w in ("mfd_readme", "mfd_readme_mgs"):
+        if w in ("mfd_readme", "mfd_readme_mgs", "mfd_readme_guessed"):
             sp = gen.spec(["s", "a", "b", "c", "d", "t"], [(u, v) for u, v, _ in README], eattr={(u, v): {"flow": f} for u, v, f in README})
             oo = {"optimize_with_greedy": False}
             if w.endswith("mgs"):
                 oo["use_min_gen_set_lowerbound"] = True
+            if w.endswith("guessed"):
+                # the guessed-weights pre-step finds a decomposition before the search over k starts (below its number of paths every k is still run)
+                oo["optimize_with_guessed_weights"] = True
             inst = {"cls": "MinFlowDecomp", "spec": sp, "kw": {"flow_attr": "flow", "weight_type": "int", "optimization_options": oo}}
+            cls = "MinFlowDecomp"
+        elif w == "mfd_waist_guessed":
+            # three entrances and three exits around one node: lower bound 3, minimum 4, and the guessed-weights pre-step (candidate weights = the
+            # flow values) already finds a 4-path decomposition, so the search still has to settle k = 3 by a solver run
+            E = [("s0", "m", 4), ("m", "t0", 6), ("m", "t1", 1), ("m", "t2", 3), ("s1", "m", 4), ("s2", "m", 2)]
+            sp = gen.spec(["s0", "s1", "s2", "m", "t0", "t1", "t2"], [(u, v) for u, v, _ in E], eattr={(u, v): {"flow": f} for u, v, f in E})
+            inst = {"cls": "MinFlowDecomp", "spec": sp, "kw": {"flow_attr": "flow", "weight_type": "int", "optimization_options": {"optimize_with_greedy": False, "optimize_with_guessed_weights": True}}}
             cls = "MinFlowDecomp"
         elif w == "mfdc_two":
             E = [("s", "a", 3), ("a", "b", 2), ("b", "a", 2), ("a", "t", 3), ("s", "t", 1)]
@@ -100,6 +114,17 @@ def make_runner(case, rng):
                 oo["use_min_gen_set_lowerbound"] = True
             if cls in ("MinFlowDecomp", "MinFlowDecompCycles") and case["variant"] == 2:
                 oo["optimize_with_guessed_weights"] = True
+                if cls == "MinFlowDecomp" and rng.random() < 0.6:
+                    # entrances and exits around one node: the minimum often exceeds the lower bound, and the guessed-weights pre-step may already
+                    # hold a decomposition when the search over k starts
+                    ni_, no_ = rng.randint(2, 3), rng.randint(2, 3); tot_ = rng.randint(6, 14)
+                    def split_(t_, n_):
+                        cuts_ = sorted(rng.sample(range(1, t_), n_ - 1)); return [b_ - a_ for a_, b_ in zip([0] + cuts_, cuts_ + [t_])]
+                    E_ = [(f"s{j_}", "m", f_) for j_, f_ in enumerate(split_(tot_, ni_))] + [("m", f"t{j_}", f_) for j_, f_ in enumerate(split_(tot_, no_))]
+                    rng.shuffle(E_)
+                    inst = {"cls": cls, "spec": gen.spec(sorted({x for u_, v_, _ in E_ for x in (u_, v_)}), [(u_, v_) for u_, v_, _ in E_], eattr={(u_, v_): {"flow": f_} for u_, v_, f_ in E_}),
+                            "kw": {"flow_attr": "flow", "weight_type": "int"}}
+                    kw = inst["kw"]
             kw["optimization_options"] = oo
             break
         def build():
@@ -216,6 +241,47 @@ def run_restricted(case):
     return {"viol": viol, "obs": dict(obs), "nontrivial": True, "keys": ["restricted"], "sample": {"restricted": True}}
 
 
+def run_greedypre(case):
+    """kFlowDecomp with the library's default options (greedy shortcut available) for every k from 1 to the number of planted paths + 1: before
+    solve() no getter hands out data - whatever the shortcut computed and cached at construction -, and after solve() data only if is_solved()."""
+    viol = []; obs = collections.Counter()
+    rng = gen.rng_for(case["rs"])
+    base = I.dag_edge_base(rng, wt=rng.choice(["int", "float"]), max_edges=rng.choice([9, 14]), exact=True, npaths=rng.randint(2, 5))
+    G = gen.build(I.spec_of(base)); np_ = max(1, len(base["planted"]))
+    for k in range(1, np_ + 2):
+        r = M.safe_call(fp.kFlowDecomp, G, flow_attr="flow", k=k, weight_type=models.WT[base["wt"]], solver_options=dict(SO))
+        if r[0] != "ok":
+            obs["c13.ctor_failed"] += 1; continue
+        m = r[1]
+        desc = f"kFlowDecomp(k={k}) default options, {np_} planted paths; edges={[(u, v, d.get('flow')) for u, v, d in G.edges(data=True)]}"
+        obs["c13.pre_solve_getters"] += 1
+        pre = getters_raise(m)
+        if pre and not bool(m.is_solved()):
+            # (when the shortcut finds a decomposition with <= k paths at construction the model already reports is_solved(): a feasible
+            # solution of a pure feasibility model is an optimal one, data and flag agree. Judged: data WITHOUT the flag.)
+            viol.append({"sig": "C13/getter-returns-data-before-solve/kFlowDecomp/default-options", "msg": f"is_solved() is False but {pre}; {desc}"})
+        elif pre:
+            obs["c13.solved_by_shortcut_at_construction"] += 1
+            sol0 = m.get_solution()
+            if len([p for p in sol0["paths"] if p]) > k:
+                viol.append({"sig": "C13/solved-with-more-than-k-paths/kFlowDecomp/default-options", "msg": f"before solve(): {sol0}; {desc}"})
+        M.safe_call(m.solve)
+        if not bool(m.is_solved()):
+            obs["c13.greedy_default_unsolved"] += 1
+            post = getters_raise(m)
+            if post:
+                viol.append({"sig": "C13/unsolved-model-hands-out-data/kFlowDecomp/default-options", "msg": f"{post}; {desc}"})
+        else:
+            sol = m.get_solution()
+            if len([p for p in sol["paths"] if p]) > k:
+                viol.append({"sig": "C13/solved-with-more-than-k-paths/kFlowDecomp/default-options", "msg": f"{sol}; {desc}"})
+    seen = set(); out = []
+    for v in viol:
+        if v["sig"] not in seen:
+            seen.add(v["sig"]); out.append(v)
+    return {"viol": out, "obs": dict(obs), "nontrivial": True, "keys": [hashlib.sha1(repr(sorted(G.edges(data="flow"))).encode()).hexdigest()[:14]], "sample": {"greedypre": np_}}
+
+
 def run_lastrun(case):
     """Two-phase MinErrorFlow (few_flow_values_epsilon): is_solved() is set by the optimality of the LAST solver run (second phase), so the
     data handed out must be that run's solution, not a cached solution of an earlier run."""
@@ -255,6 +321,8 @@ def run_case(case):
         return run_restricted(case)
     if case["kind"] == "lastrun":
         return run_lastrun(case)
+    if case["kind"] == "greedypre":
+        return run_greedypre(case)
     viol = []; obs = collections.Counter(); keys = []
     rng = gen.rng_for(case["rs"])
     M.TRACE.install()
